@@ -1,5 +1,5 @@
 (* C05 — Cached tour state always equals recomputation from the bare tours. *)
-From VRP Require Import Base.Tac Model.Core Spec.Feasible Model.Eval Spec.Inv Model.Cache Proofs.CacheP.
+From VRP Require Import Base.Tac Model.Core Spec.Feasible Model.Eval Spec.Inv Model.Cache Proofs.CacheP Model.CacheX Proofs.CacheXP.
 
 (* The protocol of RouteContext over ANY table of features with distinct fields: the invariant
    "not stale -> every field maintained on route level equals its recomputation from the tour" is kept by every operation. *)
@@ -92,3 +92,114 @@ Proof.
   split; [reflexivity|]. split; [reflexivity|]. split; [reflexivity|].
   apply (cache_ok_accept_route_state _ _ _ shipped shipped_keys_distinct). intros H; discriminate.
 Qed.
+
+(* ======================= cross-tour cached quantities (Model/CacheX.v) =======================
+   A per-SOLUTION aggregate that is cached INSIDE per-route state (the shared reload resource: "still available" per reload
+   interval).  The protocol has the re-run loop of accept_solution_state_with_states; `edits` is whatever the solution-level
+   clean-up does to the tours in an abandoned round (remove_trivial_markers). *)
+(* hand-over, ANY tables with distinct keys: if every per-tour feature refreshes stale tours at hand-over, every cross-tour
+   feature reads only what those features keep fresh (x_sound) and its second pass writes EVERY tour (XAll), then after
+   accept_solution_state - however many rounds were abandoned - no tour is stale, every per-tour field equals its
+   recomputation, and in a complete solution every cross-tour field equals its function of the bare tours of the result *)
+Theorem C05_x_handover_fresh : forall tour job value (fs : list (feature tour job value)) (xfs : list (xfeature tour value))
+  (edits : list (rctx tour value) -> option (list (rctx tour value))),
+  keys_distinct tour job value fs -> NoDup (map xf_key xfs) ->
+  (forall f, In f fs -> refreshes_on_handover tour job value f = true) ->
+  (forall xf, In xf xfs -> forall f, In f fs -> f_key f <> xf_key xf) ->
+  (forall xf, In xf xfs -> forall rs r, In r rs -> Forall (fun r0 => forall f, In f fs -> field_ok tour job value f r0) rs ->
+                           xf_read xf rs r = xf_spec xf (map rc_tour rs) (rc_tour r)) ->
+  (forall rs rs', edits rs = Some rs' -> forall r', In r' rs' -> In r' rs \/ rc_stale r' = true) ->
+  forall partial fuel rs rs', Forall (CacheOK tour job value fs) rs ->
+  accept_solution_loop tour job value fs xfs edits partial fuel rs = Some rs' ->
+  Forall (fun r' => rc_stale r' = false /\
+                    (forall f, In f fs -> field_ok tour job value f r') /\
+                    (partial = false -> forall xf, In xf xfs -> xf_scope xf = XAll ->
+                                        rc_state r' (xf_key xf) = xf_spec xf (map rc_tour rs') (rc_tour r'))) rs'.
+Proof. exact handover_fresh_x. Qed.
+
+(* after every single insertion into a complete solution (accept_insertion_with_states: prevent on the receiving tour, update
+   over ALL tours): per-tour fields and cross-tour fields are right on every tour, for the tours as they are now *)
+Theorem C05_x_insertion_fresh : forall tour job value (fs : list (feature tour job value)) (xfs : list (xfeature tour value)),
+  keys_distinct tour job value fs -> NoDup (map xf_key xfs) ->
+  (forall xf, In xf xfs -> forall f, In f fs -> f_key f <> xf_key xf) ->
+  (forall xf, In xf xfs -> forall rs r, In r rs -> Forall (fun r0 => forall f, In f fs -> field_ok tour job value f r0) rs ->
+                           xf_read xf rs r = xf_spec xf (map rc_tour rs) (rc_tour r)) ->
+  forall ins j i rs, insertion_exact tour job value fs ins ->
+  Forall (fun r0 => forall f, In f fs -> field_ok tour job value f r0) rs ->
+  let rs' := accept_insertion_x tour job value fs xfs false ins j i rs in
+  Forall (fun r' => (forall f, In f fs -> field_ok tour job value f r') /\
+                    forall xf, In xf xfs -> xf_scope xf = XAll ->
+                               rc_state r' (xf_key xf) = xf_spec xf (map rc_tour rs') (rc_tour r')) rs'.
+Proof. exact insertion_fresh_x. Qed.
+
+(* SharedResourceState::update_resource_consumption as written (totals in a map keyed by resource id, intervals read from the
+   cached route state, get_activity_by_idx may panic) computes the function `avail_spec` of the bare tours whenever the cached
+   reload intervals are fresh - for either scope of the second pass *)
+Theorem C05_shared_read_sound : forall (scope : xscope) rs r, In r rs ->
+  Forall (fun r0 => forall f, In f shared_table -> field_ok _ _ _ f r0) rs ->
+  xf_read (shared_feature scope) rs r = xf_spec (shared_feature scope) (map rc_tour rs) (rc_tour r).
+Proof. exact shared_read_sound. Qed.
+
+(* the shared reload feature as shipped: at every hand-over of a complete solution no tour is stale, the cached reload
+   intervals are those of the tour, the cached availability is `avail_spec` of the handed-over tours *)
+Theorem C05_shared_handover_fresh : forall edits,
+  (forall rs rs', edits rs = Some rs' -> forall r', In r' rs' -> In r' rs \/ rc_stale r' = true) ->
+  forall fuel (rs rs' : list (rctx (list sact) xval)), Forall (CacheOK _ _ _ shared_table) rs ->
+  accept_solution_loop _ _ _ shared_table shared_shipped edits false fuel rs = Some rs' ->
+  Forall (fun r' => rc_stale r' = false /\
+                    rc_state r' K_INTERVALS = Some (XIntervals (intervals_of (rc_tour r'))) /\
+                    rc_state r' K_SHARED = avail_spec (map rc_tour rs') (rc_tour r')) rs'.
+Proof. exact shared_handover_fresh. Qed.
+
+Theorem C05_shared_insertion_fresh : forall ins j i (rs : list (rctx (list sact) xval)),
+  insertion_exact _ _ _ shared_table ins ->
+  Forall (fun r0 => forall f, In f shared_table -> field_ok _ _ _ f r0) rs ->
+  let rs' := accept_insertion_x _ _ _ shared_table shared_shipped false ins j i rs in
+  Forall (fun r' => rc_state r' K_INTERVALS = Some (XIntervals (intervals_of (rc_tour r'))) /\
+                    rc_state r' K_SHARED = avail_spec (map rc_tour rs') (rc_tour r')) rs'.
+Proof. exact shared_insertion_fresh. Qed.
+
+(* what `avail_spec` is: for a reload interval (s, e) of a tour t of the solution ts that starts at an activity with the
+   resource (cap, id), the entry at s is cap minus the resource demand of ALL reload intervals of ALL tours on resource id *)
+Theorem C05_shared_avail_char : forall ts t s e a cap id,
+  In t ts -> In (s, e) (intervals_of t) -> nth_error t s = Some a -> sa_res a = Some (cap, id) ->
+  In (s, Some (cap - sum_for id (flat_map contribs_spec ts))) (avail_spec_entries ts t).
+Proof. exact shared_avail_char. Qed.
+
+(* the class of seeded change C05-5 (mutant C05-7), "skip not modified tours" in the second pass: a step takes a job out of one
+   tour; the other tour, untouched, is handed over fresh-flagged with availability 1 where the tours say 3 *)
+Theorem C05_shared_stale_only_refuted :
+  exists r1 r2, w_step shared_stale_only = Some [r1; r2] /\ rc_stale r2 = false /\ rc_tour r2 = wt2 /\
+    rc_state r2 K_SHARED = Some (XAvail [(0%nat, None); (2%nat, Some 1)]) /\
+    avail_spec [rc_tour r1; rc_tour r2] (rc_tour r2) = Some (XAvail [(0%nat, None); (2%nat, Some 3)]).
+Proof. exact shared_stale_only_refuted. Qed.
+
+(* non-vacuity: the same history with the code as shipped - both tours hold 3 = 5 - (1 + 1) *)
+Theorem C05_shared_nonvacuous :
+  exists r1 r2, w_step shared_shipped = Some [r1; r2] /\ rc_stale r2 = false /\ rc_tour r2 = wt2 /\
+    rc_state r1 K_SHARED = Some (XAvail [(0%nat, None); (2%nat, Some 3)]) /\
+    rc_state r2 K_SHARED = Some (XAvail [(0%nat, None); (2%nat, Some 3)]) /\
+    rc_state r2 K_INTERVALS = Some (XIntervals [(0%nat, 1%nat); (2%nat, 4%nat)]).
+Proof. exact shared_step_shipped. Qed.
+
+(* finding C05-F2.  CombinedFeatureState::accept_route_state is accept_route_state_with_states over its own states: a NESTED
+   clear.  For a goal [f; Combined gs xs], GoalContext::accept_route_state on a stale tour returns it flagged fresh with the
+   field of f - written a moment before - gone.  So C05_cache_ok_accept_route_state does NOT extend to goals with a combined
+   state (ExchangeSequence::extract_jobs calls it and hands the tour over when nothing is re-inserted). *)
+Theorem C05_nested_clear_wipes : forall tour job value (f : feature tour job value) gs (xs : list (xfeature tour value)) r,
+  rc_stale r = true -> ~ In (f_key f) (map f_key gs) -> ~ In (f_key f) (map xf_key xs) ->
+  let r' := goal_accept_route_state tour job value [EOne f; ECombined gs xs] r in
+  rc_stale r' = false /\ rc_tour r' = rc_tour r /\ rc_state r' (f_key f) = None.
+Proof. exact nested_clear_wipes. Qed.
+
+Theorem C05_nested_clear_refuted :
+  let r' := goal_accept_route_state _ _ _ shared_goal (mkRctx wt1 (fun _ => None) true) in
+  rc_stale r' = false /\ rc_state r' K_TOTAL = None /\ f_compute total_feature (rc_tour r') = Some (XTotal 6) /\
+  ~ CacheOK _ _ _ [total_feature; intervals_feature] r'.
+Proof. exact nested_clear_refuted. Qed.
+
+(* a goal without a combined state: GoalContext::accept_route_state IS the accept_route_state of the protocol above, to which
+   C05_cache_ok_accept_route_state applies *)
+Theorem C05_goal_accept_route_state_flat : forall tour job value (gs : list (feature tour job value)) r,
+  goal_accept_route_state tour job value (map EOne gs) r = accept_route_state tour job value gs r.
+Proof. exact goal_accept_route_state_flat. Qed.
